@@ -163,3 +163,8 @@ Definition open_modes : list (str * str * Z * str) := [
 Definition observer_writes : list (str * str * Z) := [
 
 ].
+
+(* writes to process-global state of the STANDARD LIBRARY (registries, environment, interpreter settings) *)
+Definition stdlib_global_writes : list (str * str * Z * str) := [
+
+].
